@@ -49,42 +49,27 @@ Theorem fingerprint_deterministic :
 Proof. exact Proofs_Iso.fingerprint_deterministic_lemma. Qed.
 Print Assumptions fingerprint_deterministic.
 
-(** SENSITIVITY.  Full statement: "if two rooted function graphs have equal fingerprints, their reachable parts are
-    isomorphic" -- so that any difference in a reachable code, value or reference shows in the fingerprint.  It is FALSE
-    of the model, hence of the code it transcribes ([fingerprint_sensitive_refuted] below): a function that is still being
-    pickled is denoted by its NAME alone, so two different functions of the same name are confused.
-
-    What holds: the statement for every pair of graphs in which AT LEAST ONE has no two different reachable functions of
-    the same name,
-      names_identify g r := forall x y reachable from r in g, f_name x = f_name y -> x = y.
-    The isomorphism found relates reachable functions only. *)
-Theorem fingerprint_sensitive_partial :
+(** SENSITIVITY.  If two rooted function graphs have EQUAL fingerprints, their reachable parts are isomorphic: there is
+    a one-to-one relation between the functions reachable from the two roots, containing the roots, under which related
+    functions have the same name, the same code identity and pairwise related mentioned functions in order.  So any
+    difference in a reachable code or value, or in which function a reference denotes, shows in the fingerprint.
+    No hypothesis on names: a reference to a function in progress carries the function's ordinal (function.go since
+    7738be5; before that fix the statement was false, see [same_named_in_progress_example]) and a memo reference
+    identifies the finished function it refers to. *)
+Theorem fingerprint_sensitive :
   forall g1 r1 g2 r2 ts s1 s2,
-    names_identify g1 r1 \/ names_identify g2 r2 ->
     fingerprint g1 r1 = Done ts s1 -> fingerprint g2 r2 = Done ts s2 ->
     exists R, iso g1 g2 r1 r2 R /\
               (forall x y, R x y -> lookup x g1 <> None -> reach g1 r1 x /\ reach g2 r2 y).
 Proof. exact Proofs_Iso.fingerprint_sensitive_lemma. Qed.
-Print Assumptions fingerprint_sensitive_partial.
-
-(** The hypothesis cannot be dropped: there are two rooted graphs with EQUAL fingerprints between which there is not even
-    a relation containing the roots under which related nodes agree.  Witness (Proofs_Iso.collide_g1/2): target 1 calls 2,
-    2 calls 3, and 2 and 3 are different functions both named 7; in the first graph 3 calls 2 back, in the second 3 calls
-    itself -- both references are written ("dawn","Recursive",("7",)).  The same pair on the implementation: two closures
-    called h made by two factories, see DESIGN.md / the C08 report. *)
-Theorem fingerprint_sensitive_refuted :
-  exists g1 r1 g2 r2 ts s1 s2,
-    fingerprint g1 r1 = Done ts s1 /\ fingerprint g2 r2 = Done ts s2 /\
-    ~ exists R : N -> N -> Prop, R r1 r2 /\ forall x y, R x y -> agree g1 g2 R x y.
-Proof. exact Proofs_Iso.fingerprint_sensitive_refuted_lemma. Qed.
-Print Assumptions fingerprint_sensitive_refuted.
+Print Assumptions fingerprint_sensitive.
 
 (** non-vacuity: mutual recursion even <-> odd used by third (which also calls itself), target t *)
 Definition ex_g1 : graph :=
   [(1, mkFn 101 1001 [4]); (2, mkFn 102 1002 [3]); (3, mkFn 103 1003 [2]); (4, mkFn 104 1004 [2; 4])].
 Example mutual_recursion_example :
   fingerprint ex_g1 1 =
-  Done [TFun 101 1001 [TFun 104 1004 [TFun 102 1002 [TFun 103 1003 [TRec 102]]; TRec 104]]]
+  Done [TFun 101 1001 [TFun 104 1004 [TFun 102 1002 [TFun 103 1003 [TRec 102 2]]; TRec 104 1]]]
        (mkSt [3; 2; 4; 1] [1; 4; 2; 3]).
 Proof. vm_compute. reflexivity. Qed.
 
@@ -114,21 +99,21 @@ Proof.
     destruct H.
 Qed.
 
-(** [fingerprint_sensitive_partial]'s hypotheses hold of the same pair: distinct names among the functions reachable from 1
-    in ex_g1 (ex_g2 as a whole has two functions named 103), and equal fingerprints *)
+(** [fingerprint_sensitive]'s hypotheses hold of the same pair: equal fingerprints *)
 Example sensitive_example :
-  names_identify ex_g1 1 /\
   exists ts s1 s2, fingerprint ex_g1 1 = Done ts s1 /\ fingerprint ex_g2 21 = Done ts s2.
-Proof.
-  split.
-  - apply distinct_names_identify. vm_compute.
-    repeat (constructor; [cbn [In]; intros H; repeat (destruct H as [H|H]; [discriminate H|]); exact H|]).
-    constructor.
-  - do 3 eexists. split; vm_compute; reflexivity.
-Qed.
+Proof. do 3 eexists. split; vm_compute; reflexivity. Qed.
 
 (** ... and a reachable difference shows: function 3's code changed from 1003 to 1009 (same name, same references) *)
 Example sensitive_example_edit :
   let g' := [(1, mkFn 101 1001 [4]); (2, mkFn 102 1002 [3]); (3, mkFn 103 1009 [2]); (4, mkFn 104 1004 [2; 4])] in
   forall ts s ts' s', fingerprint ex_g1 1 = Done ts s -> fingerprint g' 1 = Done ts' s' -> ts <> ts'.
 Proof. intros g' ts s ts' s' H H'. vm_compute in H, H'. inversion H; inversion H'; subst. discriminate. Qed.
+
+(** the pair that refuted sensitivity while the placeholder carried the name only: target 1 calls 2, 2 calls 3, and 2 and
+    3 are different functions both named 7; in the first graph 3 calls 2 back, in the second 3 calls itself.  The two
+    references are now ("dawn","Recursive",("7",1)) and ("dawn","Recursive",("7",2)). *)
+Example same_named_in_progress_example :
+  fingerprint collide_g1 1 = Done [TFun 10 100 [TFun 7 200 [TFun 7 300 [TRec 7 1]]]] (mkSt [3; 2; 1] [1; 2; 3]) /\
+  fingerprint collide_g2 1 = Done [TFun 10 100 [TFun 7 200 [TFun 7 300 [TRec 7 2]]]] (mkSt [3; 2; 1] [1; 2; 3]).
+Proof. split; vm_compute; reflexivity. Qed.
